@@ -2,6 +2,7 @@ package websocket
 
 import (
 	"context"
+	"io"
 	"errors"
 	"net"
 	"time"
@@ -730,4 +731,53 @@ func verifC05_stale_race() {
 	vAssert(ok && good && !inMsg && n == 2, "C05.stale-race.wire")
 	c.CloseNow()
 	vObserve("c05stale", len(t.out))
+}
+
+// C05.stale-reader: the application has read every payload byte of a message without having seen its end yet (it knew
+// the length: io.ReadFull) and then the next message is begun behind its back - by its own next Reader call, or by the
+// CloseRead goroutine when the peer sends another message. Reading the first message's reader again must report its end
+// (or fail): the bytes of the next message are not bytes of this one. With CloseRead the second reader runs in a library
+// goroutine: the accesses of the two must also be ordered (no data race).
+func verifC05_stale_reader() {
+	client := vParam("client", 1) == 1
+	vInstallRand()
+	mk := func(f vFrame) vFrame {
+		f.masked = !client
+		if f.masked {
+			copy(f.key[:], vBytes("key", 4))
+		}
+		return f
+	}
+	m1 := vBytes("m1", 2)
+	m2 := vBytes("m2", 3)
+	t := vNewTransport(vEncodeFrame(mk(vFrame{fin: true, opcode: 2, payload: m1})))
+	t.endMode = vEndBlock
+	if vParam("peerStalls", 0) == 1 {
+		t.writeBlock = true // the peer does not read: the CloseRead goroutine's 1008 Close frame blocks
+	}
+	c := vNewConn(t, client, nil, 32, 64)
+	_, r, err := c.Reader(vBG)
+	vAssert(err == nil, "C05.stale-reader.setup")
+	p := make([]byte, 2)
+	n, err := io.ReadFull(r, p)
+	vAssert(err == nil && n == 2 && vEqBytes(p, m1), "C05.stale-reader.first-message")
+	how := vChoose("next", 2)
+	if how == 0 {
+		vClassify("next-message-begun-by", "Reader")
+		t.vFeed(vEncodeFrame(mk(vFrame{fin: true, opcode: 2, payload: m2})))
+		_, _, err = c.Reader(vBG)
+		vAssert(err == nil, "C05.stale-reader.second-reader")
+	} else {
+		vClassify("next-message-begun-by", "CloseRead")
+		c.CloseRead(vBG)
+		vGhostSettle()
+		t.vFeed(vEncodeFrame(mk(vFrame{fin: true, opcode: 2, payload: m2})))
+		vGhostSettle()
+	}
+	q := make([]byte, 8)
+	n, err = r.Read(q)
+	vReach("C05.stale-reader.read-again")
+	vAssert(n == 0 && err != nil, "C05.stale-reader.finished-message-yields-no-more-bytes")
+	c.CloseNow()
+	vObserve("c05stalereader", n, err == io.EOF)
 }
